@@ -47,9 +47,10 @@ struct cat_command *args_world(int nv, bool with_handler, bool need_all, bool sh
                 v[j].write = AF[j].no_callback ? NULL : hv_write;
                 before[j] = xalloc(AF[j].size);
         }
+        if (chance(25)) w_noise_group(30 + rn(150));      /* background event traffic while the arguments are collected and decoded */
         size_t cap = ARG_CAP_HINT ? ARG_CAP_HINT : 2500;
         if (cap < w_min_cap()) cap = w_min_cap();
-        w_buffers(shared ? cap * 2 + rn(2) : cap, shared, 32);
+        w_buffers(shared ? cap * 2 + rn(2) : cap, shared, 32 + rn(80));
         w_init((int)rn(2));
         POLICY = policy; VPOLICY = vpolicy;
         return c;
